@@ -7,6 +7,9 @@ def extra(report, fam, tier, seed):
 
     report.guarded("fragment triples", fragments.run, report, 4 if tier == "quick" else 5)
     report.guarded("AppendOutput fragment triples", fragments.run_append_output, report, 4 if tier == "quick" else 5)
+    from contracts import format_levels
+
+    report.guarded("format level mapping", format_levels.run, report, 3 if tier == "quick" else 4)
 
 
 def check(argv):
